@@ -130,7 +130,8 @@ class Meth:
 
 
 class Iface:
-    def __init__(self, name, props=None, methods=None, truthy=True, classes=(), hasattr=None):
+    def __init__(self, name, props=None, methods=None, truthy=True, classes=(), hasattr=None, native_factory=None):
+        self.native_factory = native_factory   # callable(name, source, log, fields) -> native stand-in (default: pyvc.native.Stub)
         self.name = name
         self.props = props or {}
         self.methods = methods or {}
